@@ -82,9 +82,10 @@ ParseRawAddr(s) ==
            w == SubSeq(s, 1, c - 1)
            h == SubSeq(s, c + 1, Len(s))
            neg == Len(w) > 0 /\ w[1] = 45
-           mag == Dec31(IF neg THEN Tail(w) ELSE w)
+           min32 == neg /\ Tail(w) = <<50, 49, 52, 55, 52, 56, 51, 54, 52, 56>>      \* "-2147483648", the one int32 whose magnitude is not one
+           mag == IF min32 THEN 0 ELSE Dec31(IF neg THEN Tail(w) ELSE w)
        IN IF mag < 0 \/ Len(h) # 64 \/ ~IsHexText(h) THEN [ok |-> FALSE]
-          ELSE [ok |-> TRUE, wc |-> IF neg THEN -mag ELSE mag, addr |-> HexDecode(h)]
+          ELSE [ok |-> TRUE, wc |-> IF min32 THEN -2147483647 - 1 ELSE IF neg THEN -mag ELSE mag, addr |-> HexDecode(h)]
 
 \* ============================================================ the library's payload
 \* text (bytes of the hex text) -> [wf, nonce, t, mac]
@@ -157,9 +158,27 @@ NormHeader(B) ==
   ELSE LET fl == B[5]  sz == fl % 8  a0 == 7 + 2 * sz IN
        IF (fl \div 64) % 2 = 1 \/ sz < 1 \/ sz > 4 \/ Len(B) < 6 + 3 * sz THEN B        \* (a crc protects the header)
        ELSE [i \in 1..Len(B) |-> IF i = 5 THEN fl - ((fl \div 8) % 8) * 8 ELSE IF i >= a0 /\ i < a0 + sz THEN 0 ELSE B[i]]
+\* A bag may carry, per cell, the hashes and depths of the cell (descriptor bit 16, "with hashes").  They are redundant:
+\* what a cell IS is its content, and its hash is the hash of that content.  StoredExact: every stored hash / depth is
+\* the one the content gives.  A bag with a wrong stored value is not what a serialiser produces; a reader may refuse it
+\* or ignore the stored values (free) -- but it may never take a stored value for the hash of the cell.
+StoredExact(B, P) ==
+  LET sz == P.size  ob == P.offBytes
+      dataAt == 7 + 3 * sz + ob + (IF P.magic = "generic" THEN Len(P.roots) * sz ELSE 0) + (IF P.hasIdx THEN P.ncells * ob ELSE 0)
+      At == FoldLeft(LAMBDA acc, i : LET c == CellAt(B, acc.next, Len(B), sz) IN
+                                     [next |-> c.next, pos |-> Append(acc.pos, acc.next), wh |-> Append(acc.wh, c.wh)],
+                     [next |-> dataAt, pos |-> <<>>, wh |-> <<>>], [i \in 1..P.ncells |-> i])
+  IN IF \A i \in 1..P.ncells : ~At.wh[i] THEN TRUE
+     ELSE IF \E i \in 1..P.ncells : ~HashableCell(P.T[i]) THEN FALSE
+     ELSE LET I == InfoTable(P.T) IN
+          \A i \in 1..P.ncells :
+             At.wh[i] => LET lv == Levels(P.T[i].m)
+                             hh == FoldLeft(LAMBDA a, l : a \o I[i].h[l + 1], <<>>, lv)
+                             dd == FoldLeft(LAMBDA a, l : a \o U16(I[i].d[l + 1]), <<>>, lv)
+                         IN SubSeq(B, At.pos[i] + 2, At.pos[i] + 1 + 34 * Len(lv)) = hh \o dd
 BagReading(B) ==
   LET Ps == Parse(B)
-      exact == Ps.ok /\ Ps.T = WithMasks(Ps.T)
+      exact == Ps.ok /\ Ps.T = WithMasks(Ps.T) /\ StoredExact(B, Ps)
       Pt == IF exact THEN Ps ELSE ParseLenient(NormHeader(B))
       T  == IF Pt.ok THEN WithMasks(Pt.T) ELSE <<>>
   IN [ok |-> Pt.ok /\ Len(Pt.roots) = 1 /\ \A i \in 1..Len(T) : HashableCell(T[i]),
